@@ -133,6 +133,7 @@ class SQLDataStore(datastore.DataStore):
     return study_resource
 
   def load_study(self, study_name: str) -> study_pb2.Study:
+    study_name = resources.StudyResource.from_name(study_name).name
     query = sqla.select(self._studies_table)
     query = query.where(self._studies_table.c.study_name == study_name)
 
@@ -258,6 +259,7 @@ class SQLDataStore(datastore.DataStore):
     return trial_resource
 
   def get_trial(self, trial_name: str) -> study_pb2.Trial:
+    trial_name = resources.TrialResource.from_name(trial_name).name
     query = sqla.select(self._trials_table)
     query = query.where(self._trials_table.c.trial_name == trial_name)
 
@@ -322,6 +324,7 @@ class SQLDataStore(datastore.DataStore):
     return trials
 
   def delete_trial(self, trial_name: str) -> None:
+    trial_name = resources.TrialResource.from_name(trial_name).name
     # Exist query
     eq = sqla.select(self._trials_table)
     eq = eq.where(self._trials_table.c.trial_name == trial_name)
@@ -385,6 +388,9 @@ class SQLDataStore(datastore.DataStore):
   def get_suggestion_operation(
       self, operation_name: str
   ) -> operations_pb2.Operation:
+    operation_name = resources.SuggestionOperationResource.from_name(
+        operation_name
+    ).name
     q = sqla.select(self._suggestion_operations_table)
     q = q.where(
         self._suggestion_operations_table.c.operation_name == operation_name
@@ -535,6 +541,9 @@ class SQLDataStore(datastore.DataStore):
   def get_early_stopping_operation(
       self, operation_name: str
   ) -> vizier_oss_pb2.EarlyStoppingOperation:
+    operation_name = resources.EarlyStoppingOperationResource.from_name(
+        operation_name
+    ).name
     q = sqla.select(self._early_stopping_operations_table)
     q = q.where(
         self._early_stopping_operations_table.c.operation_name == operation_name
